@@ -5,6 +5,7 @@ package props
 import (
 	"bytes"
 	"fmt"
+	"io"
 	"reflect"
 	"sort"
 	"strings"
@@ -27,6 +28,7 @@ type CaseC20 struct {
 	Safe   bool                   `json:"safe"`
 	Recast bool                   `json:"recast"`
 	Sub    []Cond                 `json:"sub,omitempty"`
+	Bulk   int                    `json:"bulk,omitempty"` // the message handler of the stream wrappers returns false at this message (0: never, -1: clause off)
 }
 
 func init() { register("C20", checkC20) }
@@ -86,6 +88,7 @@ func genC20(t *rapid.T) CaseC20 {
 	if rapid.IntRange(0, 2).Draw(t, "rooted") > 0 {
 		c.DPath[0] = c.Doc.Local
 	}
+	c.Bulk = rapid.IntRange(-1, 3).Draw(t, "bulk")
 	c.Safe = rapid.Bool().Draw(t, "safe")
 	c.Recast = rapid.Bool().Draw(t, "recast")
 	if rapid.IntRange(0, 3).Draw(t, "withsub") == 0 {
@@ -450,8 +453,112 @@ func checkC20(c CaseC20, info *Info) *Failure {
 	info.ClassIf(len(depths) >= 2, "key at >=2 depths in the value")
 	info.ClassIf(hasListInList(c.Value), "list-in-list value")
 	info.ClassIf(nonEmpty >= 3, ">=3 compared functions returned non-empty results")
+	if f := checkC20bulk(c, doc, mism, info); f != nil {
+		return f
+	}
 	info.NonTrivial(nonEmpty >= 2)
 	return nil
 }
 
 func TestC20(t *testing.T) { runProp(t, "C20", genC20, checkC20) }
+
+// plainReader hides every method but Read (an *os.File, a socket or an HTTP body is no io.ByteReader either).
+type plainReader struct{ r io.Reader }
+
+func (p plainReader) Read(b []byte) (int, error) { return p.r.Read(b) }
+
+// checkC20bulk: x2j-wrapper.XmlMsgsFromReader[AsJson] is the loop of mxj.NewMapXmlReader calls that
+// mxj.HandleXmlReader runs: same messages in the same order, same stop, and the reader is left where the core leaves it.
+func checkC20bulk(c CaseC20, doc []byte, mism func(string, interface{}, interface{}) *Failure, info *Info) *Failure {
+	if c.Bulk < 0 {
+		return nil
+	}
+	var stream bytes.Buffer
+	stream.Write(doc)
+	stream.WriteString("\n<second n=\"2\">2</second> ")
+	stream.Write(doc)
+	stream.WriteString("<fourth><x>true</x></fourth>\n")
+	data := stream.Bytes()
+	rest := func(r io.Reader) []string {
+		var out []string
+		for i := 0; i < 6; i++ {
+			m, err := mxj.NewMapXmlReader(r)
+			if err != nil {
+				out = append(out, "error:"+err.Error())
+				break
+			}
+			out = append(out, canon(map[string]interface{}(m)))
+		}
+		return out
+	}
+	run := func(asJSON, core, hideByteReader bool) ([]string, []string, error) {
+		var r io.Reader = bytes.NewReader(data)
+		if hideByteReader {
+			r = plainReader{r}
+		}
+		var seen []string
+		n := 0
+		var herr error
+		eh := func(e error) bool { seen = append(seen, "error:"+e.Error()); return false }
+		switch {
+		case core:
+			herr = mxj.HandleXmlReader(r, func(m mxj.Map) bool {
+				n++
+				if asJSON {
+					j, _ := m.Json(true)
+					seen = append(seen, string(j))
+				} else {
+					seen = append(seen, canon(map[string]interface{}(m)))
+				}
+				return n != c.Bulk
+			}, eh)
+		case asJSON:
+			herr = x2jw.XmlMsgsFromReaderAsJson(r, func(s string) bool { n++; seen = append(seen, s); return n != c.Bulk }, eh, c.Recast)
+		default:
+			herr = x2jw.XmlMsgsFromReader(r, func(m map[string]interface{}) bool { n++; seen = append(seen, canon(m)); return n != c.Bulk }, eh, c.Recast)
+		}
+		return seen, rest(r), herr
+	}
+	defer resetOptions()
+	for _, asJSON := range []bool{false, true} {
+		for _, hide := range []bool{true, false} {
+			// the core handler has no cast argument: the wrapper's recast flag is compared through the same decoding of each message
+			wantSeen, wantRest, wantErr := run(asJSON, true, hide)
+			if c.Recast {
+				// recompute what the core loop yields with the cast flag
+				var r io.Reader = bytes.NewReader(data)
+				if hide {
+					r = plainReader{r}
+				}
+				wantSeen = nil
+				for n := 1; ; n++ {
+					m, err := mxj.NewMapXmlReader(r, true)
+					if err != nil {
+						break
+					}
+					if asJSON {
+						j, _ := m.Json(true)
+						wantSeen = append(wantSeen, string(j))
+					} else {
+						wantSeen = append(wantSeen, canon(map[string]interface{}(m)))
+					}
+					if n == c.Bulk {
+						break
+					}
+				}
+				wantRest = rest(r)
+			}
+			gotSeen, gotRest, gotErr := run(asJSON, false, hide)
+			name := fmt.Sprintf("x2j-wrapper.XmlMsgsFromReader(asJson=%v, io.ByteReader hidden=%v, handler stops at message %d)", asJSON, hide, c.Bulk)
+			if !reflect.DeepEqual(gotSeen, wantSeen) || (gotErr == nil) != (wantErr == nil) {
+				return mism(name+": messages handed to the handler", fmt.Sprint(gotSeen, gotErr), fmt.Sprint(wantSeen, wantErr))
+			}
+			if !reflect.DeepEqual(gotRest, wantRest) {
+				return mism(name+": what the same reader yields afterwards", gotRest, wantRest)
+			}
+		}
+	}
+	info.ClassIf(c.Bulk >= 1 && c.Bulk <= 3, "stream wrapper stopped early, reader used again")
+	info.Class("stream wrappers compared")
+	return nil
+}
